@@ -106,7 +106,7 @@ def _shared_sizes():
 
 SWEEP_MAX_N = {"quick": 3, "thorough": 4}
 RANDOM_CASES = {"quick": 100000, "thorough": 1500000}
-THREAD_CASES = {"quick": 480, "thorough": 6000}
+THREAD_CASES = {"quick": 480, "thorough": 4000}
 FINGERPRINT_RANDOM = 300000      # random cases beyond this are counted, not fingerprinted (keeps evidence merge small)
 
 
@@ -149,7 +149,7 @@ def plan(tier):
            "membership_votes": 5000, "membership_votes:count-strategy": 800, "membership_required_count_changed": 300,
            "reach:QuorumSensing.add_agent": 5000, "reach:QuorumSensing.remove_agent": 2000,
            "shared_name_ballots": 1500, "shared_name_ballots:mixed": 500,
-           "nested_votes:voter": 300, "nested_votes:callback": 300, "nested_results_judged": 1200,
+           "nested_votes:voter": 300, "nested_votes:callback": 200, "nested_results_judged": 1200,
            "thread_schedules": 600, "thread_results_judged": 1200, "thread_schedules_overlapping": 300}
     for s in STRATEGIES:
         req["strategy:" + s] = 2000
@@ -170,18 +170,28 @@ class VoterDown(Exception):
     pass
 
 
-class StubVoter:
-    """Stands in for a BioAgent: same `name`, `express(signal)` returns the scripted protein or raises."""
+PROMPT = "shall we proceed?"
 
-    def __init__(self, name, sp):
+
+class StubVoter:
+    """Stands in for a BioAgent: same `name`, `express(signal)` returns the scripted protein or raises.
+    `scripts` maps a proposal text to the ballot this voter casts on it (overlapping votes); `before` is a one-shot
+    hook run inside express (a voter that consults the quorum itself before answering)."""
+
+    def __init__(self, name, sp, scripts=None):
         self.name = name
         self.sp = sp
+        self.scripts = scripts or {}
+        self.before = None
         self.calls = 0
 
     def express(self, signal):
         from operon_ai.core.types import ActionProtein
         self.calls += 1
-        sp = self.sp
+        sp = self.scripts.get(getattr(signal, "content", None), self.sp)
+        hook = self.before
+        if hook is not None:
+            hook(self, signal)
         if sp["kind"] == "raise":
             raise VoterDown("voter %s is down" % self.name)
         c = sp["conf"]
@@ -253,32 +263,66 @@ def teardown_shard(ctx):
 
 
 # ---------------------------------------------------------------- building and running the real quorum
+_LOCK_TYPES = (type(threading.Lock()), type(threading.RLock()))
+
+
+def wrap_locks(q, wrapper):
+    """Replace every lock the quorum object owns by a cooperative wrapper around the same lock."""
+    k = 0
+    for name, val in list(vars(q).items()):
+        if isinstance(val, _LOCK_TYPES):
+            setattr(q, name, wrapper(val, "%s.%s" % (type(q).__name__, name)))
+            k += 1
+    return k
+
+
 class Harness:
-    def __init__(self, cfg, n):
+    def __init__(self, cfg, n, roster=None):
+        """roster None: n members created by the constructor; else (k0, names): k0 by the constructor, the rest through
+        add_agent(name) — names may repeat each other or a constructor-made name."""
         from operon_ai.topology.quorum import QuorumSensing, EmergencyQuorum, VotingStrategy
         from operon_ai.state.metabolism import ATP_Store
         self.cfg = cfg
-        self.n = n
+        self.roster = roster
         self.events = []
+        self.on_event = None
         kind, strategy, t, mv = cfg
+        k0 = n if roster is None else roster[0]
         budget = ATP_Store(budget=10 ** 6, silent=True)
-        cb = dict(on_quorum_reached=lambda r: self.events.append(("reached", r)),
-                  on_quorum_failed=lambda r: self.events.append(("failed", r)), silent=True)
+        cb = dict(on_quorum_reached=lambda r: self._event("reached", r),
+                  on_quorum_failed=lambda r: self._event("failed", r), silent=True)
         if kind == "emergency":
             if t == "default":
-                self.q = EmergencyQuorum(n_agents=n, budget=budget, **cb)
+                self.q = EmergencyQuorum(n_agents=k0, budget=budget, **cb)
                 self.custom = 0.3
             else:
-                self.q = EmergencyQuorum(n_agents=n, budget=budget, emergency_threshold=t, **cb)
+                self.q = EmergencyQuorum(n_agents=k0, budget=budget, emergency_threshold=t, **cb)
                 self.custom = t
             self.min_voters = 1
         else:
-            self.q = QuorumSensing(n_agents=n, budget=budget, strategy=VotingStrategy(strategy), threshold=t,
+            self.q = QuorumSensing(n_agents=k0, budget=budget, strategy=VotingStrategy(strategy), threshold=t,
                                    min_voters=mv, **cb)
             self.custom = t
             self.min_voters = mv
+        if roster is not None:
+            for name in roster[1]:
+                self.q.add_agent(name)
         self.strategy = strategy
+        self.recruits = 0
+        self.sync()
+        if self.n != n:
+            raise RuntimeError("harness: colony of %d members for an electorate of %d" % (self.n, n))
+
+    def _event(self, kind, r):
+        self.events.append((kind, r))
+        if self.on_event is not None:
+            self.on_event(kind, r)
+
+    def sync(self):
         self.names = [p.agent.name for p in self.q.colony]
+        self.n = len(self.names)
+        self.unique = len(set(self.names)) == self.n
+        self.plain = self.names == ["Bacterium_%d" % i for i in range(self.n)]
 
     def reconfigure(self, strategy, t):
         """session mode: the documented way to change strategy on a live quorum."""
@@ -286,16 +330,26 @@ class Harness:
         self.q.set_strategy(VotingStrategy(strategy), t)
         self.strategy, self.custom = strategy, t
 
-    def cast(self, ballot):
+    def install(self, ballot, scripts=None):
+        """Put one stub per colony member in place and set the weights. scripts[i]: proposal text -> spec."""
+        if len(ballot) != len(self.q.colony):
+            raise RuntimeError("harness: %d specs for %d members" % (len(ballot), len(self.q.colony)))
         stubs = []
-        for prof, name, sp in zip(self.q.colony, self.names, ballot):
-            st = StubVoter(name, sp)
+        for i, (prof, name, sp) in enumerate(zip(self.q.colony, self.names, ballot)):
+            st = StubVoter(name, sp, scripts[i] if scripts else None)
             prof.agent = st
-            self.q.set_agent_weight(name, sp["weight"])
+            if self.unique:
+                self.q.set_agent_weight(name, sp["weight"])
+            else:
+                prof.weight = sp["weight"]      # set_agent_weight addresses the first member of that name only
             stubs.append(st)
         rel = [p.reliability_score for p in self.q.colony]
+        return rel, stubs
+
+    def cast(self, ballot, prompt=PROMPT):
+        rel, stubs = self.install(ballot)
         del self.events[:]
-        res = self.q.run_vote("shall we proceed?")
+        res = self.q.run_vote(prompt)
         return res, rel, stubs
 
 
@@ -314,21 +368,77 @@ def describe(h, ballot, rel=None):
          "threshold": "default(0.3)" if h.cfg[0] == "emergency" and h.cfg[2] == "default" else h.custom,
          "min_voters": h.min_voters,
          "ballot": [[sp["word"] if sp["kind"] != "raise" else "raise", sp["weight"], sp["conf"]] for sp in ballot]}
+    if not h.plain:
+        d["member_names"] = list(h.names)
     if rel is not None and any(r != 1.0 for r in rel):
         d["reliability"] = rel
     return d
 
 
-def judge(ctx, h, ballot, tag):
+def judge(ctx, h, ballot, tag, mprefix="", history=None):
     """Run one ballot on the real quorum and judge the result. Returns (permit?, verdict, result) or None."""
+    desc = dict(describe(h, ballot), run=tag)
+    if history:
+        desc["before_this_vote"] = history
+    try:
+        res, rel, _ = h.cast(ballot)
+    except Exception as e:
+        ctx.violation(mprefix + "run-vote-raises", "run_vote raised %s" % type(e).__name__, dict(desc, error=repr(e)))
+        return None
+    mine = [k for k, r in h.events if r is res]
+    return assess(ctx, h, ballot, res, rel, mine, len(h.events) - len(mine), desc, tag, mprefix)
+
+
+def _allowed(sp):
+    natural = M.ballot_class(sp["kind"])
+    if conf_value(sp) is None and sp["kind"] != "raise":
+        return natural, {natural, M.ABSTAIN}          # a ballot with an unreadable confidence may be discarded
+    return natural, {natural}
+
+
+def match_recorded(names, ballot, votes):
+    """Assign the recorded votes to the voters: by name; among members sharing a name by position, or — when the
+    positional reading does not fit — by any assignment in which every recorded class is one the voter may get.
+    Returns a list parallel to `ballot`, or None when the recorded votes are not one per member."""
+    n = len(ballot)
+    if len(votes) != n:
+        return None
+    rec_by, idx_by = {}, {}
+    for v in votes:
+        rec_by.setdefault(v.agent_id, []).append(v)
+    for i, nm in enumerate(names):
+        idx_by.setdefault(nm, []).append(i)
+    if set(rec_by) != set(idx_by) or any(len(rec_by[nm]) != len(ix) for nm, ix in idx_by.items()):
+        return None
+    out = [None] * n
+    for nm, ix in idx_by.items():
+        recs = rec_by[nm]
+        if len(ix) > 1 and not all(r.vote_type.value in _allowed(ballot[i])[1] for i, r in zip(ix, recs)):
+            left = list(recs)
+            trial = {}
+            order = sorted(ix, key=lambda i: len(_allowed(ballot[i])[1]))       # voters with one admissible class first
+            for i in order:
+                natural, ok = _allowed(ballot[i])
+                pick = next((r for r in left if r.vote_type.value == natural), None) or \
+                    next((r for r in left if r.vote_type.value in ok), None)
+                if pick is None:
+                    trial = None
+                    break
+                left.remove(pick)
+                trial[i] = pick
+            if trial is not None:
+                recs = [trial[i] for i in ix]
+        for i, r in zip(ix, recs):
+            out[i] = r
+    return out
+
+
+def assess(ctx, h, ballot, res, rel, mine, stray, desc, tag, mprefix=""):
+    """Judge one QuorumResult against the ballots cast for it. `mine` = callback kinds fired with this result,
+    `stray` = callbacks fired with some other object although no other vote was running."""
     from operon_ai.topology.quorum import VoteType
     n = len(ballot)
-    desc = dict(describe(h, ballot), run=tag)
-    try:
-        res, rel, stubs = h.cast(ballot)
-    except Exception as e:
-        ctx.violation("run-vote-raises", "run_vote raised %s" % type(e).__name__, dict(desc, error=repr(e)))
-        return None
+    desc = dict(desc)
     if any(r != 1.0 for r in rel):
         desc["reliability"] = rel
     ctx.count("ballots_judged")
@@ -337,57 +447,58 @@ def judge(ctx, h, ballot, tag):
         ctx.count("emergency_ballots")
     if h.strategy == "threshold" and numeric(h.custom) and 0 < h.custom < 1:
         ctx.count("fractional_count_threshold")
+    if not h.unique:
+        ctx.count("shared_name_ballots")
+        groups = {}
+        for nm, sp in zip(h.names, ballot):
+            groups.setdefault(nm, set()).add(M.ballot_class(sp["kind"]))
+        if any(len(g) > 1 for g in groups.values()):
+            ctx.count("shared_name_ballots:mixed")
     permit = bool(res.reached) or res.decision == VoteType.PERMIT
     desc["reported"] = {"reached": res.reached, "decision": getattr(res.decision, "value", repr(res.decision)),
                         "permit_votes": res.permit_votes, "block_votes": res.block_votes,
                         "abstain_votes": res.abstain_votes, "total_votes": res.total_votes,
-                        "weighted_score": res.weighted_score, "threshold_used": res.threshold_used}
+                        "weighted_score": res.weighted_score, "threshold_used": res.threshold_used,
+                        "recorded": [[v.agent_id, v.vote_type.value] for v in res.votes][:12]}
 
     # ---- reached <=> PERMIT, callbacks
     if bool(res.reached) != (res.decision == VoteType.PERMIT):
-        ctx.violation("reached-decision-mismatch", "reached=%r with decision %r" % (res.reached, res.decision), desc)
+        ctx.violation(mprefix + "reached-decision-mismatch", "reached=%r with decision %r" % (res.reached, res.decision), desc)
     ctx.count("callback_checks")
-    kinds = [k for k, _ in h.events]
-    if kinds != (["reached"] if res.reached else ["failed"]) or h.events[0][1] is not res:
-        ctx.violation("callback-mismatch", "callbacks %r for reached=%r" % (kinds, res.reached), desc)
+    if mine != (["reached"] if res.reached else ["failed"]) or stray:
+        ctx.violation(mprefix + "callback-mismatch", "callbacks %r (+%d for another object) for reached=%r" % (
+            mine, stray, res.reached), desc)
 
     # ---- ballots as recorded, per voter
-    recorded = {}
-    dup = False
-    for v in res.votes:
-        if v.agent_id in recorded:
-            dup = True
-        recorded[v.agent_id] = v
-    if dup or len(res.votes) != n or set(recorded) != set(h.names):
-        ctx.violation("counts-mismatch", "recorded votes do not match the electorate (%d votes for %d voters)" % (
-            len(res.votes), n), desc)
+    recorded = match_recorded(h.names, ballot, res.votes)
+    if recorded is None:
+        ctx.violation(mprefix + "counts-mismatch", "recorded votes do not match the electorate (%d votes %r for %d voters %r)" % (
+            len(res.votes), sorted(v.agent_id for v in res.votes)[:10], n, sorted(h.names)), desc)
         return permit, None, res
     voters = []
     judgeable = True
-    for name, sp, r, st in zip(h.names, ballot, rel, stubs):
-        natural = M.ballot_class(sp["kind"])
+    for name, sp, r, rec in zip(h.names, ballot, rel, recorded):
+        natural, allowed = _allowed(sp)
         cv = conf_value(sp)
-        got = recorded[name].vote_type.value
+        got = rec.vote_type.value
         failed = sp["kind"] in ("raise", "FAILURE") or (cv is None and sp["kind"] != "raise")
         if sp["kind"] in ("raise", "FAILURE"):
             ctx.count("failed_voters")
-        allowed = {natural}
         if cv is None and sp["kind"] != "raise":
             ctx.count("nonnumeric_confidence")
-            allowed = {natural, M.ABSTAIN}        # a ballot with an unreadable confidence may be discarded
         if got not in allowed:
             if failed and got == M.PERMIT:
-                ctx.violation("failed-voter-counted", "voter that failed (%s) is recorded as PERMIT" % sp["kind"],
+                ctx.violation(mprefix + "failed-voter-counted", "voter that failed (%s) is recorded as PERMIT" % sp["kind"],
                               dict(desc, voter=name))
             else:
-                ctx.violation("ballot-misclassified", "ballot %s recorded as %s" % (sp["word"] if sp["kind"] != "raise" else "raise", got),
+                ctx.violation(mprefix + "ballot-misclassified", "ballot %s recorded as %s" % (sp["word"] if sp["kind"] != "raise" else "raise", got),
                               dict(desc, voter=name))
             got = natural
         if cv is None:
             if got == M.ABSTAIN:
                 cv = 0
             else:
-                oc = recorded[name].confidence
+                oc = rec.confidence
                 if numeric(oc) and oc == oc and 0 <= oc <= 1:
                     cv = oc
                 else:
@@ -398,10 +509,10 @@ def judge(ctx, h, ballot, tag):
     a = sum(1 for x in voters if x.cls == M.ABSTAIN)
     d = sum(1 for x in voters if x.cls == M.DEFER)
     if res.permit_votes != p or res.block_votes != b or res.abstain_votes not in (a, a + d) or res.total_votes != n:
-        ctx.violation("counts-mismatch", "reported permit/block/abstain/total %r, ballots cast %r" % (
+        ctx.violation(mprefix + "counts-mismatch", "reported permit/block/abstain/total %r, ballots cast %r" % (
             (res.permit_votes, res.block_votes, res.abstain_votes, res.total_votes), (p, b, a, n)), desc)
     if getattr(res.strategy, "value", None) != h.strategy:
-        ctx.violation("strategy-mismatch", "result carries strategy %r" % (res.strategy,), desc)
+        ctx.violation(mprefix + "strategy-mismatch", "result carries strategy %r" % (res.strategy,), desc)
 
     # ---- decision against the statement
     if not judgeable and h.strategy in ("weighted", "confidence", "bayesian"):
@@ -420,16 +531,17 @@ def judge(ctx, h, ballot, tag):
         ctx.count("result:block")
     if permit and not v.may_permit:
         clause = "min-voters" if v.why_not == "min-voters" else "unsupported-permit"
-        ctx.violation(mech(h.strategy, h.custom, clause),
+        ctx.violation(mprefix + mech(h.strategy, h.custom, clause),
                       "PERMIT although %s (%d permit, %d block, %d abstain, %d defer%s)" % (
                           v.why_not, p, b, a, d,
                           ", required %d" % v.required if v.required is not None else
                           (", permit share %.6g vs threshold %r" % (float(v.support), v.theta) if v.support is not None else "")),
                       desc)
     if v.must_permit and not permit:
-        ctx.violation(mech(h.strategy, h.custom, "unanimous-permit-rejected"),
-                      "unanimous permit ballot of %d voter(s) (min_voters %d) reported %s" % (
-                          n, h.min_voters, desc["reported"]["decision"]), desc)
+        ctx.violation(mprefix + mech(h.strategy, h.custom, "unanimous-permit-rejected"),
+                      "unanimous permit ballot of %d voter(s) (min_voters %d%s) reported %s" % (
+                          n, h.min_voters, ", required %d" % v.required if v.required is not None else "",
+                          desc["reported"]["decision"]), desc)
     nontrivial = (0 < p < n) or any(numeric(sp["weight"]) and sp["weight"] == 0 or (numeric(sp["conf"]) and sp["conf"] < 0.3)
                                     for sp in ballot)
     if nontrivial:
@@ -437,7 +549,8 @@ def judge(ctx, h, ballot, tag):
     # one fingerprint per case keeps the evidence small; partner ballots are counted above
     if nontrivial and tag == "base" and (not isinstance(ctx.case, int) or ctx.case < sweep_len(ctx.tier) + FINGERPRINT_RANDOM):
         ctx.nontrivial((h.cfg[0], h.strategy, h.custom, h.min_voters,
-                        tuple(sorted((sp["kind"], sp["weight"], repr(sp["conf"])) for sp in ballot)), tuple(rel)))
+                        tuple(sorted((sp["kind"], sp["weight"], repr(sp["conf"])) for sp in ballot)), tuple(rel),
+                        () if h.plain else tuple(h.names)))
     return permit, v, res
 
 
@@ -477,12 +590,57 @@ def near_threshold(v, res):
         return False
 
 
-def run_family(ctx, cfg, ballot, pick, warm=None, session=False, sample=False):
+# ---------------------------------------------------------------- live membership
+def membership_step(ctx, h, ballot, pick, new_spec, history):
+    """add_agent / remove_agent on the live quorum until it has another size (1..7), then vote again: members that stay
+    keep their ballot, recruits get a new one. Returns (new ballot, judged) or None when the colony did not follow."""
+    old_n = h.n
+    target = pick([x for x in range(1, 8) if x != old_n])
+    keep = list(h.q.colony)                      # keeps the profile objects (and their ids) alive
+    spec_of = {id(p): sp for p, sp in zip(keep, ballot)}
+    ops = []
+    while h.n > target:
+        name = pick(h.names)
+        h.q.remove_agent(name)
+        ops.append(["remove_agent", name])
+        before = h.n
+        h.sync()
+        if h.n != before - 1:
+            ctx.count("membership_not_followed")
+            return None
+    while h.n < target:
+        sp = new_spec()
+        pool = ["Recruit_%d" % h.recruits]
+        if not h.unique or h.roster is not None:
+            pool = pool + h.names[:2]             # colonies that already share names may get another namesake
+        name = pick(pool)
+        h.recruits += 1
+        prof = h.q.add_agent(name, sp["weight"])
+        ops.append(["add_agent", name, sp["weight"]])
+        before = h.n
+        h.sync()
+        if h.n != before + 1 or not any(p is prof for p in h.q.colony):
+            ctx.count("membership_not_followed")
+            return None
+        keep.append(prof)
+        spec_of[id(prof)] = sp
+    nb = [spec_of[id(p)] for p in h.q.colony]
+    history.append({"voted_with_members": old_n, "then": ops})
+    ctx.count("membership_votes")
+    if h.strategy == "threshold":
+        ctx.count("membership_votes:count-strategy")
+        if M.required_count(h.custom, old_n) != M.required_count(h.custom, h.n):
+            ctx.count("membership_required_count_changed")
+    got = judge(ctx, h, nb, "membership", mprefix="after-membership-change:", history=list(history))
+    return nb, got
+
+
+def run_family(ctx, cfg, ballot, pick, new_spec, warm=None, session=False, membership=0, switch=True, roster=None, sample=False):
     """Base ballot plus its metamorphic partners, each on a fresh quorum (or on one live quorum in session mode)."""
     n = len(ballot)
 
     def fresh():
-        h = Harness(cfg, n)
+        h = Harness(cfg, n, roster)
         if warm is not None:
             from operon_ai.topology.quorum import VoteType
             wb, correct = warm
@@ -498,7 +656,7 @@ def run_family(ctx, cfg, ballot, pick, warm=None, session=False, sample=False):
     if base is None:
         return
     bp, bv, bres = base
-    if session and cfg[0] == "quorum":
+    if session and switch and cfg[0] == "quorum":
         # a live quorum is switched to another strategy and back (set_strategy): no stale state may leak
         other = pick([x for x in STRATEGIES if x != cfg[1]])
         h.reconfigure(other, None)
@@ -509,9 +667,20 @@ def run_family(ctx, cfg, ballot, pick, warm=None, session=False, sample=False):
         if again is not None and again[0] != bp:
             ctx.violation("session-stale-state", "same ballot, same configuration, different decision after set_strategy round trip",
                           dict(describe(h, ballot), first=bp, second=again[0]))
+    live_ballot = ballot
+    history = []
+    for _ in range(membership):
+        # the colony of a live quorum changes between votes: the next vote is judged for the colony it was cast by
+        step = membership_step(ctx, h, live_ballot, pick, new_spec, history)
+        if step is None or step[1] is None:
+            return
+        live_ballot = step[0]
+        if session:
+            ballot, (bp, bv, bres) = live_ballot, step[1]
     for kind, nb in partners(ballot, pick):
         hp = h if session else fresh()
-        got = judge(ctx, hp, nb, kind)
+        got = judge(ctx, hp, nb, kind, mprefix="after-membership-change:" if (session and membership) else "",
+                    history=history if (session and membership) else None)
         ctx.count("meta:" + kind)
         if got is None:
             continue
@@ -527,6 +696,139 @@ def run_family(ctx, cfg, ballot, pick, warm=None, session=False, sample=False):
                            "threshold_used": pres.threshold_used})
         elif bp:
             ctx.count("meta_permit_preserved")
+
+
+# ---------------------------------------------------------------- overlapping votes on one quorum
+def overlap_ballots(rng, size, k):
+    """k ballots for k proposals put to the same colony: weights belong to the members, so they are shared."""
+    ballots = [random_ballot(rng, size) for _ in range(k)]
+    r = rng.random()
+    if r < 0.35:          # the hostile pair: nobody permits the first proposal, everybody permits the second
+        ballots[0] = [spec(rng.choice(["BLOCK", "BLOCK", "DEFER", "UNKNOWN"]), 1, rng.choice([1, 1, 0.5])) for _ in range(size)]
+        ballots[1] = [spec(rng.choice(["PERMIT", "EXECUTE"]), 1, 1) for _ in range(size)]
+    elif r < 0.5:
+        ballots[0], ballots[1] = ballots[1], ballots[0]
+    for bl in ballots[1:]:
+        for sp, sp0 in zip(bl, ballots[0]):
+            sp["weight"] = sp0["weight"]
+    return ballots
+
+
+def nested_case(ctx, rng, cfg, size, roster):
+    """A second proposal is put to the SAME quorum while the first vote is still running: from inside a voter (it consults
+    the quorum before answering) or from the result callback. Each vote must report the ballots cast for its own proposal."""
+    mode = rng.choice(["voter", "voter", "callback"])
+    ballots = overlap_ballots(rng, size, 2)
+    prompts = ["proposal A", "proposal B"]
+    scripts = [{prompts[j]: ballots[j][i] for j in range(2)} for i in range(size)]
+    h = Harness(cfg, size, roster)
+    rel, stubs = h.install(ballots[0], scripts)
+    wrap_locks(h.q, DetectingLock)
+    inner = []
+    state = {"depth": 0}
+    at = rng.randrange(size)
+
+    def nest():
+        if state["depth"] == 0:
+            state["depth"] = 1
+            try:
+                inner.append(h.q.run_vote(prompts[1]))
+            except Exception as e:        # would otherwise be swallowed as "the asking voter failed"
+                state["error"] = e
+            finally:
+                state["depth"] = 2
+
+    if mode == "voter":
+        def before(stub, signal):
+            if getattr(signal, "content", None) == prompts[0]:
+                stub.before = None
+                nest()
+        stubs[at].before = before
+    else:
+        h.on_event = lambda kind, r: nest()
+    ctx.count("nested_votes:" + mode)
+    desc = {"overlap": "re-entrant from a %s" % mode, "asking_voter": at if mode == "voter" else None}
+    try:
+        outer = h.q.run_vote(prompts[0])
+    except WouldHang:
+        ctx.count("nested_would_self_deadlock_not_judged")
+        return
+    except Exception as e:
+        ctx.violation("overlap-nested:run-vote-raises", "run_vote raised %s" % type(e).__name__,
+                      dict(describe(h, ballots[0]), error=repr(e), **desc))
+        return
+    if state.get("error") is not None:
+        ctx.violation("overlap-nested:run-vote-raises", "nested run_vote raised %s" % type(state["error"]).__name__,
+                      dict(describe(h, ballots[1]), error=repr(state["error"]), **desc))
+    for j, res in enumerate([outer] + inner[:1]):
+        mine = [k for k, r in h.events if r is res]
+        d = dict(describe(h, ballots[j]), run="nested:%s:%s" % (mode, "outer" if j == 0 else "inner"),
+                 other_proposal=describe(h, ballots[1 - j])["ballot"], **desc)
+        assess(ctx, h, ballots[j], res, rel, mine, 0, d, "nested", "overlap-nested:")
+        ctx.count("nested_results_judged")
+    if len(h.events) != 1 + len(inner[:1]):
+        ctx.violation("overlap-nested:callback-mismatch", "%d callbacks for %d votes" % (len(h.events), 1 + len(inner[:1])),
+                      dict(describe(h, ballots[0]), **desc))
+
+
+def thread_case(ctx, n, rng):
+    """2-3 threads put different proposals to ONE quorum under the line-level scheduler; every voter answers per proposal.
+    Whatever the interleaving, each call's result must be the one the reference model allows for the ballots cast for it."""
+    from operon_ai.topology import quorum as qmod
+    sched.instrument(qmod.QuorumSensing, qmod.EmergencyQuorum)
+    size = rng.choice([1, 2, 2, 3, 3, 4, 5])
+    cfg = random_config(rng, size)
+    roster = random_roster(rng, size) if rng.random() < 0.1 else None
+    k = rng.choice([2, 2, 2, 3])
+    ballots = overlap_ballots(rng, size, k)
+    prompts = ["proposal %d" % j for j in range(k)]
+    scripts = [{prompts[j]: ballots[j][i] for j in range(k)} for i in range(size)]
+
+    def one(policy, label):
+        h = Harness(cfg, size, roster)
+        rel, _ = h.install(ballots[0], scripts)
+        wrap_locks(h.q, sched.SchedLock)
+        sc = sched.Scheduler(policy, watchdog_s=30.0)
+        sc.run([(lambda p=p: h.q.run_vote(p)) for p in prompts])
+        ctx.count("thread_schedules")
+        if sc.stuck:
+            ctx.inconclusive("a thread schedule hit the wall-clock watchdog (not a verdict)")
+            return sc
+        if sc.deadlock:
+            ctx.count("thread_deadlocks_not_judged")
+            return sc
+        if sc.switch_while_other_inside:
+            ctx.count("thread_schedules_overlapping")
+            ctx.nontrivial(("threads", cfg, size, sc.trace_hash()))
+        for j in range(k):
+            d = dict(describe(h, ballots[j]), run="thread %d of %d" % (j, k), policy=label, choices=sc.choices[:200],
+                     other_proposals=[describe(h, ballots[x])["ballot"] for x in range(k) if x != j])
+            err = sc.errors[j]
+            if err is not None:
+                if isinstance(err, Exception):
+                    ctx.violation("overlap-threads:run-vote-raises", "run_vote raised %s" % type(err).__name__, dict(d, error=repr(err)))
+                continue
+            res = sc.results[j]
+            mine = [kk for kk, r in h.events if r is res]
+            assess(ctx, h, ballots[j], res, rel, mine, 0, d, "thread", "overlap-threads:")
+            ctx.count("thread_results_judged")
+        if not any(e is not None for e in sc.errors) and len(h.events) != k:
+            ctx.violation("overlap-threads:callback-mismatch", "%d callbacks for %d votes" % (len(h.events), k),
+                          dict(describe(h, ballots[0]), policy=label))
+        return sc
+
+    base = one(sched.PreemptionPolicy({}), "pb(0)")
+    steps = max(base.step, 1)
+    combos = [(s_, t_) for s_ in range(1, steps + 1) for t_ in range(k)]
+    if len(combos) > 10:
+        combos = rng.sample(combos, 10)
+    for (s_, t_) in combos:
+        one(sched.PreemptionPolicy({s_: t_}), "pb(1)@%d->%d" % (s_, t_))
+    for i in range(6):
+        one(sched.RandomPolicy(rng, (0.05, 0.2, 0.5)[i % 3]), "random")
+    if n % 97 == 0:
+        ctx.sample({"threads": k, "config": cfg, "roster": roster, "schedule_steps": steps,
+                    "ballots": [[[sp["word"] if sp["kind"] != "raise" else "raise", sp["weight"], sp["conf"]] for sp in b] for b in ballots]})
 
 
 # ---------------------------------------------------------------- case generation
@@ -589,18 +891,29 @@ def random_config(rng, n):
     return ("quorum", s, t, mv)
 
 
+def random_roster(rng, n):
+    """A colony assembled (partly) through add_agent; the added names come from a small pool, so members may share a
+    name with each other or with a constructor-made member."""
+    k0 = rng.randrange(0, n)
+    pool = ["scout", "elder", "Bacterium_0", "Bacterium_%d" % max(0, k0 - 1)]
+    return (k0, [rng.choice(pool) for _ in range(n - k0)])
+
+
 def run_case(ctx, n):
     tier = ctx.tier
     sw = sweep_len(tier)
     if n < sw:
-        cfg, ballot = decode_sweep(tier, n)
+        cfg, ballot, roster = decode_sweep(tier, n)
         k = [n]
 
         def pick(seq):
             k[0] = k[0] * 31 + 7
             return seq[k[0] % len(seq)]
 
-        return run_family(ctx, cfg, ballot, pick, sample=(n % 9973 == 0))
+        return run_family(ctx, cfg, ballot, pick, lambda: spec(*pick(SWEEP_TOKENS)), membership=1, roster=roster,
+                          sample=(n % 9973 == 0))
+    if n >= sw + RANDOM_CASES[tier]:
+        return thread_case(ctx, n, ctx.rng(n))
     rng = ctx.rng(n)
     size = rng.choice([1, 2, 3, 3, 4, 4, 5, 5, 6, 7])
     cfg = random_config(rng, size)
@@ -609,7 +922,13 @@ def run_case(ctx, n):
     if rng.random() < 0.15:
         warm = (random_ballot(rng, size), rng.choice(["permit", "block"]))
     session = rng.random() < 0.4
-    run_family(ctx, cfg, ballot, rng.choice, warm=warm, session=session, sample=(n % 5003 == 0))
+    roster = random_roster(rng, size) if rng.random() < 0.12 else None
+    if rng.random() < 0.04:
+        return nested_case(ctx, rng, cfg, size, roster)
+    membership = rng.choice([0, 0, 0, 1, 1, 2])
+    switch = membership == 0 or rng.random() < 0.5
+    run_family(ctx, cfg, ballot, rng.choice, lambda: random_spec(rng), warm=warm, session=session, membership=membership,
+               switch=switch, roster=roster, sample=(n % 5003 == 0))
 
 
 if __name__ == "__main__":
